@@ -164,6 +164,19 @@ CHECKS = {
             "values must agree to 1e-11; whole runs are repeated in a subprocess with NUMBA_DISABLE_JIT=1 and compared (1e-7).",
             "Trusted: numba's py_func as the interpreted semantics, python ast for constant indices (dynamic indices are only caught by the "
             "interpreted end-to-end runs). The numba cache directory is keyed by a hash of the whole source tree.", "DESIGN.md 7/C18"),
+    "C01": ("model_checking",
+            "TLC proves the case analysis of conv.convolution total and sound (Convolution.tla) and enumerates the kernels (Registry.tla); "
+            "every kernel's real convolve_vector against an independent quadrature in the PDF variable, every element's operator against "
+            "the weighted sum of x_c times the convolutions; TLC trace validation",
+            "The structure is exhaustive (decision table of the convolution proved against the mathematical convolution; every registry "
+            "element reached through the real assembly at interior / on-node / large-x convolution points, nf 3..6, massive ratios, NC and "
+            "CC); the numeric side is sampled: each real vector is compared entry-wise with a quadrature of the definition in u = x/z (own "
+            "breakpoints, subtraction for the plus prescription), zeros below the support exactly, and each element's tensor with "
+            "sum_k partons_k (x) x_c,k vec_k where x_c is the kernel's own convolution point; requests on other grids precede the tested "
+            "one (pool workers and fresh processes).",
+            "Trusted: TLC, scipy.quad, eko basis functions, third-party kernels. Tolerance 10 x (reported quadrature errors) + 5e-6 of the "
+            "scale (5e-5 at N3LO: the code trims the window by 1e-10 against ln^5(1-z) growth); largest deviation on the pinned tree is 10% of it.",
+            "DESIGN.md 7/C01"),
 }
 
 PENDING = {}
